@@ -98,7 +98,7 @@ func (c *Ctx) exempt(key string, n ast.Node, reason string, props ...string) {
 // fn fetches a function declaration; a missing anchor is an undecided
 // obligation (never a silent pass).
 func (c *Ctx) fn(name string) *ast.FuncDecl {
-	fd := c.P.Funcs[name]
+	fd := c.P.lookupFn(name)
 	if fd == nil || fd.Body == nil {
 		c.undecided("anchor:"+name, nil, "function "+name+" not found: the rule lost its subject")
 		return nil
